@@ -119,7 +119,13 @@ func (m *Matcher) pop() {
 }
 
 func (m *Matcher) merge() {
+	set := m.setBindings[len(m.setBindings)-1]
 	m.setBindings = m.setBindings[:len(m.setBindings)-1]
+	if len(m.setBindings) != 0 {
+		// The bindings now belong to the enclosing frame, which has to
+		// delete them if it fails later on.
+		m.setBindings[len(m.setBindings)-1] |= set
+	}
 }
 
 func (m *Matcher) Match(a Pattern, b ast.Node) bool {
